@@ -11,7 +11,7 @@ ASSUMPTIONS = [
 ]
 TRUSTED_EXTRA = []
 
-CHANGE = ("add", "addmany", "remove", "removemany", "removefiltered", "update", "updatemany")
+CHANGE = ("add", "addmany", "remove", "removemany", "removefiltered", "update", "updatemany", "removeread", "updateread")
 
 
 def expected(op, kind):
@@ -42,6 +42,11 @@ def expected(op, kind):
 
 
 def judge(res, cfg, hist, i, op, rec, model, case, queries):
+    sig_op = op
+    if op[0] == "removeread":  # the argument is what the read returned: the stored rules before the call
+        op = ("removemany", op[1], rec["pre"][op[1]])
+    elif op[0] == "updateread":
+        op = ("updatemany", rec["pre"]["p"], [list(r[:-1]) + [r[-1] + op[1]] for r in rec["pre"]["p"]])
     notify_on = True
     save_on = True
     for o in hist[:i]:
@@ -67,8 +72,8 @@ def judge(res, cfg, hist, i, op, rec, model, case, queries):
     if rec["wcalls"] != exp:
         res.violation(
             {
-                "signature": f"C20:{op[0]}:{op[1] if len(op) > 1 and op[1] in ('p', 'g', 'g2') else ''}:{cfg.watcher}{':async' if cfg.is_async else ''}",
-                "what": f"{cfg.shape}, {cfg.watcher} watcher: {list(op)} returned {rec['ret']} and notified {rec['wcalls']}; expected {exp}",
+                "signature": f"C20:{sig_op[0]}:{sig_op[1] if len(sig_op) > 1 and sig_op[1] in ('p', 'g', 'g2') else ''}:{cfg.watcher}{':async' if cfg.is_async else ''}",
+                "what": f"{cfg.shape}, {cfg.watcher} watcher: {list(sig_op)} returned {rec['ret']} and notified {rec['wcalls']}; expected {exp}",
                 "case": case,
                 "expected": exp,
                 "observed": rec["wcalls"],
